@@ -113,9 +113,10 @@ Accepts(mods, table, keys, result) == SeqToSet(result) \in Allowed(mods, table, 
 (* OS repeat events ("r" inputs; a repeat written to the OS shows as         *)
 (* ["d", code] in the out list of the "r" line):                             *)
 (*  R1 a repeat event makes kanata write at most one event, a repeat; when   *)
-(*     every input is processed and the OS key set is final (nothing owed,   *)
-(*     `fin`) only for a key the OS sees down - never for the replaced key   *)
-(*     or a released output.  (In the 1-tick window between a roa activation *)
+(*     every input is processed and the OS key set is settled (final `fin`,  *)
+(*     acceptable, and either the result of a sharp tick or two quiet ticks  *)
+(*     old) only for a key the OS sees down - never for the replaced key or  *)
+(*     a released output.  (In the 1-tick window between a roa activation    *)
 (*     and the tick that brings the modifiers back the statement is silent;  *)
 (*     a repeat for a key that is up is C14's question.)                     *)
 (*  R2 (sharp zone only: every input processed, the OS key set is the       *)
@@ -149,7 +150,7 @@ MonRepeat(m, r) ==
       stand == StandIns(mods, m.p.table, k) \cap m.down
   IN IF Len(r.out) > 1 \/ ~onlyReps
      THEN Fail(m, "C13 R1: an OS repeat event made kanata write more than one repeat")
-     ELSE IF m.pending = <<>> /\ m.fin /\ r.out # <<>> /\ r.out[1][2] \notin m.down
+     ELSE IF m.pending = <<>> /\ m.fin /\ m.bad = 0 /\ (m.sh \/ m.quiet >= 2) /\ r.out # <<>> /\ r.out[1][2] \notin m.down
      THEN Fail(m, "C13 R1: repeat written for a key the OS does not see pressed")
      ELSE IF sharp /\ stand # {} /\ (r.out = <<>> \/ r.out[1][2] \notin stand)
      THEN Fail(m, "C13 R2: the repeat of a held key was not forwarded for the key the OS sees in its place")
